@@ -11,6 +11,7 @@ RULE = ("seeded runs of the real mutable-file stack (NodeMaker, MutableFileNode,
         "of 1-12 real storage servers; k<=N<=10, SDMF and MDMF with the MDMF segment size knob drawn from 3k..128KiB so multi-segment files are cheap; every server "
         "answer is delivered in a drawn order; operation histories and faults drawn per seed; non-trivial = at least one mutable operation completed; "
         "distinct = (probe counts, k, n, format, faults fired) fingerprint")
+RULE += "; plus shares lost before the race, per-writer unreachable servers (partition), a writer overwriting through a version object held across the other writer's publish with the simulated clock advanced 0 s..1 day; server-side ground truth per applied write"
 TECHNIQUE = "deterministic simulation: seeded operation histories and delivery schedules vs byte-array reference model and on-disk ground truth"
 LEVEL_TEXT = "seeded search over histories, configurations, schedules and fault placements; sampling, not enumeration"
 LEVEL_NOTE = ("real: allmydata.client._Client, nodemaker, mutable.filenode/publish/retrieve/servermap/layout, storage server; stub: reactor, foolscap wire "
